@@ -397,6 +397,24 @@ def validate_traces(module, spec, trace_files, name, postcondition="Consumed", t
 
     def one(k):
         tf = trace_files[k]
+        if not os.path.exists(tf):
+            return [], 0
+        # a traced process that died (the crash is reported separately, against the program it was running)
+        # can leave a last line cut short; the monitor judges the complete lines
+        with open(tf) as fh:
+            ls = fh.readlines()
+        keep = []
+        for ln in ls:
+            if not ln.endswith("\n"):
+                break
+            try:
+                json.loads(ln)
+            except ValueError:
+                break
+            keep.append(ln)
+        if len(keep) != len(ls):
+            with open(tf, "w") as fh:
+                fh.writelines(keep)
         if os.path.getsize(tf) == 0:
             return [], 0
         r = run_tlc(module, cfg, "%s_%d" % (name, k), workers=1, timeout=timeout, env={"TRACE": tf}, heap=heap)
